@@ -1,11 +1,368 @@
 (** * ResetShrinkProofs: Reset and Shrink in relation-free worlds. Properties C15 (Shrink is
     invisible; capacity bounds; the result says whether work remains), C16 (Reset empties the world
-    and keeps it well formed). To be filled. *)
+    and keeps it well formed). Helper lemmas carry the prefix [r_]. *)
 From Ark Require Import Model.Base Model.Mask Model.Pool Model.Util Model.World Model.Run.
 From Ark Require Import Proofs.TableProofs Proofs.UtilProofs Proofs.MaskProofs Proofs.WF Proofs.StorageA Proofs.StorageBDefs.
+From Ark Require Import Proofs.StorageB_sb3.
+From Ark Require Proofs.ObsProofs.
 From RecordUpdate Require Import RecordSet.
 Import RecordSetNotations.
 From Coq Require Import Lia.
+
+(** ** Small list and record helpers *)
+
+Lemma r_set_tables_id : forall s : W, s <| w_tables := w_tables s |> = s.
+Proof. intros s. destruct s. reflexivity. Qed.
+
+Lemma r_upd_same : forall A (l : list A) i x, nth_error l i = Some x -> upd i x l = l.
+Proof.
+  induction l as [|a l IH]; intros [|i] x H; simpl in *; try discriminate.
+  - inversion H; reflexivity.
+  - rewrite IH by assumption. reflexivity.
+Qed.
+
+Lemma r_nth_error_firstn : forall A (l : list A) n i, i < n -> nth_error (firstn n l) i = nth_error l i.
+Proof.
+  induction l as [|a l IH]; intros [|n] [|i] H; simpl; try reflexivity; try lia.
+  apply IH. lia.
+Qed.
+
+Lemma r_in_skipn : forall A (l : list A) k x, In x (skipn k l) <-> exists j, k <= j /\ nth_error l j = Some x.
+Proof.
+  induction l as [|a l IH]; intros k x.
+  - rewrite skipn_nil. split; [intros []|]. intros ([|j] & _ & E); discriminate.
+  - destruct k as [|k].
+    + simpl skipn. split.
+      * intros H. apply In_nth_error in H. destruct H as (j & E). exists j. split; [lia|exact E].
+      * intros (j & _ & E). eapply nth_error_In; eauto.
+    + simpl skipn. rewrite IH. split.
+      * intros (j & Hj & E). exists (S j). split; [lia|exact E].
+      * intros ([|j] & Hj & E); [lia|]. exists j. split; [lia|exact E].
+Qed.
+
+Lemma r_filter_pos : forall A (f : A -> bool) l, 0 < length (filter f l) <-> exists x, In x l /\ f x = true.
+Proof.
+  intros A f l. split.
+  - intros H. destruct (filter f l) as [|x r] eqn:E; [simpl in H; lia|].
+    assert (Hin : In x (filter f l)) by (rewrite E; left; reflexivity).
+    apply filter_In in Hin. exists x. exact Hin.
+  - intros (x & Hin & Hf). assert (Hx : In x (filter f l)) by (apply filter_In; auto).
+    destruct (filter f l); [destruct Hx|simpl; lia].
+Qed.
+
+(** Counting: if every selected entry of [l'] is matched by a selected entry of [l] at the same
+    position, [l'] has at most as many; strictly fewer if some position lost its selection. *)
+Lemma r_count_le : forall A (f : A -> bool) (l l' : list A), length l' = length l ->
+  (forall j x', nth_error l' j = Some x' -> f x' = true -> exists x, nth_error l j = Some x /\ f x = true) ->
+  length (filter f l') <= length (filter f l).
+Proof.
+  induction l as [|a l IH]; intros [|a' l'] HL H; simpl in *; try lia.
+  assert (IHl : length (filter f l') <= length (filter f l)).
+  { apply IH; [lia|]. intros j x' E Hf. exact (H (S j) x' E Hf). }
+  destruct (f a') eqn:Fa'.
+  - destruct (H 0 a' eq_refl Fa') as (x & E & Fx). simpl in E. inversion E; subst x. rewrite Fx. simpl. lia.
+  - destruct (f a); simpl; lia.
+Qed.
+
+Lemma r_count_lt : forall A (f : A -> bool) (l l' : list A), length l' = length l ->
+  (forall j x', nth_error l' j = Some x' -> f x' = true -> exists x, nth_error l j = Some x /\ f x = true) ->
+  (exists j x x', nth_error l j = Some x /\ f x = true /\ nth_error l' j = Some x' /\ f x' = false) ->
+  length (filter f l') < length (filter f l).
+Proof.
+  induction l as [|a l IH]; intros [|a' l'] HL H (j & x & x' & E & Fx & E' & Fx'); simpl in *; try lia.
+  - destruct j; discriminate.
+  - assert (Hle : length (filter f l') <= length (filter f l)).
+    { apply r_count_le; [lia|]. intros k y' Ek Hf. exact (H (S k) y' Ek Hf). }
+    destruct j as [|j].
+    + simpl in E, E'. inversion E; inversion E'; subst. rewrite Fx, Fx'. simpl. lia.
+    + simpl in E, E'.
+      assert (Hlt : length (filter f l') < length (filter f l)).
+      { apply IH; [lia| |].
+        - intros k y' Ek Hf. exact (H (S k) y' Ek Hf).
+        - exists j, x, x'. auto. }
+      destruct (f a') eqn:Fa'.
+      * destruct (H 0 a' eq_refl Fa') as (y & Ey & Fy). simpl in Ey. inversion Ey; subst y. rewrite Fy. simpl. lia.
+      * destruct (f a); simpl; lia.
+Qed.
+
+(** ** Shrink *)
+
+(** The work done for one table, and the loop of [w_shrink] as a top-level fixpoint. *)
+Definition r_any1 (idx : nat) (any : bool) (t : table) (s : W) : MW bool :=
+  if negb (tbl_has_rels t) then
+    if tbl_can_shrink t (cf_cap (w_cfg s))
+    then modT idx (fun t => tbl_adjust t (tbl_shrink_target t (cf_cap (w_cfg s)))) ;;; ret true
+    else ret any
+  else
+    a1 <- (if tbl_can_shrink t (cf_caprel (w_cfg s))
+           then modT idx (fun t => tbl_adjust t (tbl_shrink_target t (cf_caprel (w_cfg s)))) ;;; ret true
+           else ret any) ;;
+    t <- getT idx ;;
+    if (negb (t_free t) && Nat.eqb (t_len t) 0)%bool then
+      free_table (t_arch t) idx ;;;
+      modA (t_arch t) (fun a => remove_from_targets_cols idx 0 (t_kinds t) (t_targets t) a) ;;;
+      cache_remove_table idx ;;;
+      ret true
+    else ret a1.
+
+Section RGo.
+Variable stop0 : bool.
+Fixpoint r_go (fuel : nat) (idx : nat) (any : bool) : MW (nat * bool) :=
+  match fuel with
+  | O => ret (idx, any)
+  | S f =>
+      t <- getT idx ;;
+      s <- get ;;
+      any1 <- r_any1 idx any t s ;;
+      if (any1 && stop0)%bool then ret (idx, any1)
+      else match f with O => ret (idx, any1) | _ => r_go f (S idx) any1 end
+  end.
+End RGo.
+
+Definition r_work (s : W) (t : table) : bool :=
+  if negb (tbl_has_rels t) then tbl_can_shrink t (cf_cap (w_cfg s))
+  else (tbl_can_shrink t (cf_caprel (w_cfg s)) || (negb (t_free t) && Nat.eqb (t_len t) 0))%bool.
+
+Lemma r_shrink_unfold : forall stop0,
+  w_shrink stop0 =
+  (s <- get ;;
+   r <- r_go stop0 (length (w_tables s)) 0 false ;;
+   let '(last, _) := r in
+   s <- get ;;
+   ret (existsb (r_work s) (skipn (S last) (w_tables s)))).
+Proof. intros. lazy delta [w_shrink r_go r_any1 r_work] beta. reflexivity. Qed.
+
+Lemma r_shrink_eq : forall stop0 s,
+  w_shrink stop0 s =
+  match r_go stop0 (length (w_tables s)) 0 false s with
+  | Ok r s' => Ok (existsb (r_work s') (skipn (S (fst r)) (w_tables s'))) s'
+  | Err e s' => Err e s'
+  end.
+Proof.
+  intros. rewrite r_shrink_unfold. unfold bind, get, ret.
+  destruct (r_go stop0 (length (w_tables s)) 0 false s) as [[last any'] s'|e s']; reflexivity.
+Qed.
+
+(** What Shrink does to one relation-free table. *)
+Definition r_step (c : nat) (t : table) : table :=
+  if tbl_can_shrink t c then tbl_adjust t (tbl_shrink_target t c) else t.
+
+Lemma r_step_noshrink : forall c t, tbl_can_shrink (r_step c t) c = false.
+Proof.
+  intros c t. unfold r_step. destruct (tbl_can_shrink t c) eqn:E; [|exact E].
+  unfold tbl_can_shrink, tbl_shrink_target.
+  destruct (tbl_adjust_len t (Nat.max (cap_pow2 (t_len t)) c)) as [L C]. rewrite L, C. apply Nat.ltb_irrefl.
+Qed.
+
+Lemma r_step_has_rels : forall c t, tbl_has_rels (r_step c t) = tbl_has_rels t.
+Proof. intros. unfold r_step. destruct (tbl_can_shrink t c); reflexivity. Qed.
+
+Lemma r_modT_state : forall (s : W) idx f t, nth_error (w_tables s) idx = Some t ->
+  s <| w_tables ::= updf idx f |> = s <| w_tables := upd idx (f t) (w_tables s) |>.
+Proof.
+  intros s idx f t H.
+  change (s <| w_tables ::= updf idx f |>) with (s <| w_tables := updf idx f (w_tables s) |>).
+  unfold updf. rewrite H. reflexivity.
+Qed.
+
+Lemma r_any1_eq : forall idx any t s,
+  nth_error (w_tables s) idx = Some t -> tbl_has_rels t = false ->
+  r_any1 idx any t s s =
+  Ok (tbl_can_shrink t (cf_cap (w_cfg s)) || any)%bool
+     (s <| w_tables := upd idx (r_step (cf_cap (w_cfg s)) t) (w_tables s) |>).
+Proof.
+  intros idx any t s Ht Hr. unfold r_any1, r_step. rewrite Hr. cbn [negb].
+  destruct (tbl_can_shrink t (cf_cap (w_cfg s))) eqn:E.
+  - unfold bind, modT, modify, ret. cbn [orb]. f_equal.
+    exact (r_modT_state s idx (fun t => tbl_adjust t (tbl_shrink_target t (cf_cap (w_cfg s)))) t Ht).
+  - cbn [orb]. unfold ret. rewrite (r_upd_same _ _ _ _ Ht), r_set_tables_id. reflexivity.
+Qed.
+
+Definition r_in (idx last j : nat) : bool := (Nat.leb idx j && Nat.leb j last)%bool.
+
+Lemma r_go_spec : forall stop0 c f idx any s,
+  cf_cap (w_cfg s) = c ->
+  (forall j t, nth_error (w_tables s) j = Some t -> tbl_has_rels t = false) ->
+  idx + S f = length (w_tables s) ->
+  exists last any' T',
+    r_go stop0 (S f) idx any s = Ok (last, any') (s <| w_tables := T' |>) /\
+    length T' = length (w_tables s) /\ idx <= last < length (w_tables s) /\
+    (forall j, nth_error T' j = if r_in idx last j then option_map (r_step c) (nth_error (w_tables s) j)
+                                else nth_error (w_tables s) j) /\
+    (stop0 = false -> S last = length (w_tables s)) /\
+    (stop0 = true -> any = false ->
+       S last = length (w_tables s) \/
+       exists t, nth_error (w_tables s) last = Some t /\ tbl_can_shrink t c = true).
+Proof.
+  intros stop0 c f. induction f as [|f IH]; intros idx any s Hc Hnr Hlen.
+  - (* last table *)
+    destruct (nth_error (w_tables s) idx) as [t|] eqn:Ht; [|apply nth_error_None in Ht; lia].
+    cbn [r_go]. rewrite (sa_bind_ok (sa_getT_eq _ _ _ Ht)).
+    unfold bind at 1, get at 1. cbv beta iota.
+    rewrite (sa_bind_ok (r_any1_eq idx any t s Ht (Hnr _ _ Ht))). rewrite Hc.
+    set (any1 := (tbl_can_shrink t c || any)%bool).
+    exists idx, any1, (upd idx (r_step c t) (w_tables s)).
+    split; [destruct (any1 && stop0)%bool; reflexivity|].
+    split; [apply upd_length|]. split; [lia|].
+    split; [|split; [intros; lia|intros; left; lia]].
+    intros j. rewrite nth_error_upd. unfold r_in.
+    destruct (Nat.eqb_spec idx j) as [<-|Hne].
+    + rewrite Ht, !Nat.leb_refl. reflexivity.
+    + destruct (Nat.leb_spec idx j), (Nat.leb_spec j idx); simpl; try reflexivity; lia.
+  - destruct (nth_error (w_tables s) idx) as [t|] eqn:Ht; [|apply nth_error_None in Ht; lia].
+    change (r_go stop0 (S (S f)) idx any) with
+      (t <- getT idx ;; s <- get ;; any1 <- r_any1 idx any t s ;;
+       if (any1 && stop0)%bool then ret (idx, any1) else r_go stop0 (S f) (S idx) any1).
+    rewrite (sa_bind_ok (sa_getT_eq _ _ _ Ht)).
+    unfold bind at 1, get at 1. cbv beta iota.
+    rewrite (sa_bind_ok (r_any1_eq idx any t s Ht (Hnr _ _ Ht))). rewrite Hc.
+    set (any1 := (tbl_can_shrink t c || any)%bool).
+    set (T1 := upd idx (r_step c t) (w_tables s)).
+    assert (HT1 : forall j, nth_error T1 j = if Nat.eqb idx j then Some (r_step c t) else nth_error (w_tables s) j).
+    { intros j. unfold T1. rewrite nth_error_upd. destruct (Nat.eqb_spec idx j) as [<-|]; [rewrite Ht|]; reflexivity. }
+    destruct (any1 && stop0)%bool eqn:Hstop.
+    + (* stop after the first table that had work *)
+      exists idx, any1, T1. split; [reflexivity|]. split; [apply upd_length|]. split; [lia|].
+      apply andb_true_iff in Hstop. destruct Hstop as [Ha Hs].
+      split; [|split; [intros; congruence|]].
+      * intros j. rewrite HT1. unfold r_in.
+        destruct (Nat.eqb_spec idx j) as [<-|Hne].
+        -- rewrite Ht, !Nat.leb_refl. reflexivity.
+        -- destruct (Nat.leb_spec idx j), (Nat.leb_spec j idx); simpl; try reflexivity; lia.
+      * intros _ Hany. right. exists t. split; [exact Ht|]. unfold any1 in Ha. rewrite Hany, orb_false_r in Ha. exact Ha.
+    + set (s1 := s <| w_tables := T1 |>).
+      destruct (IH (S idx) any1 s1) as (last & any' & T' & E & L & B & P & S0 & S1).
+      { exact Hc. }
+      { intros j t0 E0. change (w_tables s1) with T1 in E0. rewrite HT1 in E0.
+        destruct (Nat.eqb idx j).
+        - inversion E0; subst t0. rewrite r_step_has_rels. exact (Hnr _ _ Ht).
+        - exact (Hnr _ _ E0). }
+      { change (w_tables s1) with T1. unfold T1. rewrite upd_length. lia. }
+      change (w_tables s1) with T1 in *.
+      assert (LT1 : length T1 = length (w_tables s)) by apply upd_length.
+      exists last, any', T'. split; [exact E|]. split; [congruence|]. split; [lia|].
+      split; [|split].
+      * intros j. rewrite P, HT1. unfold r_in.
+        destruct (Nat.eqb_spec idx j) as [<-|Hne].
+        -- rewrite Ht. destruct (Nat.leb_spec (S idx) idx); [lia|]. simpl.
+           rewrite Nat.leb_refl. destruct (Nat.leb_spec idx last); [reflexivity|lia].
+        -- destruct (Nat.leb_spec (S idx) j), (Nat.leb_spec idx j), (Nat.leb_spec j last); simpl; try reflexivity; lia.
+      * intros Hs. rewrite <- LT1. auto.
+      * intros Hs Hany. assert (Ha1 : any1 = false).
+        { rewrite Hs, andb_true_r in Hstop. exact Hstop. }
+        destruct (S1 Hs Ha1) as [Hend|(t0 & E0 & C0)]; [left; congruence|].
+        right. exists t0. split; [|exact C0]. rewrite HT1 in E0.
+        destruct (Nat.eqb_spec idx last); [lia|exact E0].
+Qed.
+
+(** Tables that look the same to every entity. *)
+Definition r_tsim (t t' : table) : Prop :=
+  tbl_ok t' /\ t_len t' = t_len t /\ t_arch t' = t_arch t /\ t_ids t' = t_ids t /\ t_kinds t' = t_kinds t /\
+  t_targets t' = t_targets t /\ t_rels t' = t_rels t /\ t_free t' = t_free t /\
+  (forall r, r < t_len t -> row_ent t' r = row_ent t r) /\
+  (forall ci r, r < t_len t -> cell t' ci r = cell t ci r).
+
+Lemma r_tsim_refl : forall t, tbl_ok t -> r_tsim t t.
+Proof. intros t H. unfold r_tsim. split; [exact H|]. repeat split; reflexivity. Qed.
+
+Lemma r_shrink_target_ge : forall t c, t_len t <= Nat.pow 2 31 -> t_len t <= tbl_shrink_target t c.
+Proof.
+  intros t c H. unfold tbl_shrink_target. pose proof (UtilProofs.cap_pow2_ge _ H). lia.
+Qed.
+
+Lemma r_tsim_step : forall c t, tbl_ok t -> t_len t <= Nat.pow 2 31 -> r_tsim t (r_step c t).
+Proof.
+  intros c t H Hs. unfold r_step. destruct (tbl_can_shrink t c); [|apply r_tsim_refl; exact H].
+  pose proof (r_shrink_target_ge t c Hs) as Hge.
+  unfold r_tsim. split; [apply tbl_adjust_ok; assumption|].
+  repeat (split; [reflexivity|]). split.
+  - intros r Hr. apply (tbl_adjust_rows t _ 0 r H Hge Hr).
+  - intros ci r Hr. apply (tbl_adjust_rows t _ ci r H Hge Hr).
+Qed.
+
+Lemma r_sim_St : forall s T', St s -> length T' = length (w_tables s) ->
+  (forall j t, nth_error (w_tables s) j = Some t -> exists t', nth_error T' j = Some t' /\ r_tsim t t') ->
+  St (s <| w_tables := T' |>) /\ content_same s (s <| w_tables := T' |>).
+Proof.
+  intros s T' HSt HL Hf. pose proof HSt as (H & NR).
+  set (s' := s <| w_tables := T' |>).
+  assert (Hb : forall j t', nth_error T' j = Some t' -> exists t, nth_error (w_tables s) j = Some t /\ r_tsim t t').
+  { intros j t' E'. destruct (nth_error (w_tables s) j) as [t|] eqn:E.
+    - destruct (Hf _ _ E) as (t'' & E'' & R). rewrite E' in E''. inversion E''; subst t''. exists t. auto.
+    - apply nth_error_None in E. assert (j < length T') by (apply nth_error_Some; congruence). lia. }
+  split.
+  - apply (sb3_St_intro s s' HSt).
+    + unfold sb3_struct_same. repeat split; reflexivity.
+    + split; [exact HL|]. intros tid t E. destruct (Hf _ _ E) as (t' & E' & O & L & F1 & F2 & F3 & F4 & F5 & F6 & _).
+      exists t'. split; [exact E'|]. split; [exact O|]. repeat split; assumption.
+    + exact (wf_index_len _ H).
+    + intros tid t' r E' Hr. destruct (Hb _ _ E') as (t & E & O & L & F1 & F2 & F3 & F4 & F5 & F6 & Re & Rc).
+      rewrite L in Hr. rewrite (Re _ Hr). exact (wf_rows _ H tid t r E Hr).
+    + intros id tid r E. destruct (wf_index _ H id tid r E) as (t & Et & Hr & Hfst).
+      destruct (Hf _ _ Et) as (t' & E' & O & L & F1 & F2 & F3 & F4 & F5 & F6 & Re & Rc).
+      exists t'. split; [exact E'|]. split; [lia|]. rewrite (Re _ Hr). exact Hfst.
+    + exact (wf_pool _ H).
+    + exact (wf_reserved _ H).
+    + exact (wf_small _ H).
+  - intros e. destruct (sb3_row_of s e) as [[t r]|] eqn:E0.
+    + destruct (sb3_row_of_wf _ _ _ _ H E0) as (tid & Ei & Et & Hr & Hfst).
+      destruct (Hf _ _ Et) as (t' & E' & O & L & F1 & F2 & F3 & F4 & F5 & F6 & Re & Rc).
+      assert (E0' : sb3_row_of s' e = Some (t', r)).
+      { unfold sb3_row_of. change (w_index s') with (w_index s). change (w_tables s') with T'.
+        rewrite Ei, E'. reflexivity. }
+      apply (sb3_same_some s s' e t r t' r E0 E0'); auto; lia.
+    + apply sb3_same_none; auto. unfold sb3_row_of in *.
+      change (w_index s') with (w_index s). change (w_tables s') with T'.
+      destruct (nth_error (w_index s) (fst e)) as [[[j|] r0]|]; auto.
+      destruct (nth_error (w_tables s) j) eqn:Ej; [discriminate|].
+      assert (En : nth_error T' j = None) by (apply nth_error_None; rewrite HL; apply nth_error_None; exact Ej).
+      rewrite En. reflexivity.
+Qed.
+
+(** The shape of a Shrink run in a relation-free world. *)
+Lemma r_shrink_run : forall s stop0, St s ->
+  exists last T',
+    w_shrink stop0 s = Ok (existsb (fun t => tbl_can_shrink t (cf_cap (w_cfg s))) (skipn (S last) T'))
+                          (s <| w_tables := T' |>) /\
+    length T' = length (w_tables s) /\ last < length (w_tables s) /\
+    (forall j, nth_error T' j = if Nat.leb j last then option_map (r_step (cf_cap (w_cfg s))) (nth_error (w_tables s) j)
+                                else nth_error (w_tables s) j) /\
+    (stop0 = false -> S last = length (w_tables s)) /\
+    (stop0 = true -> S last = length (w_tables s) \/
+       exists t, nth_error (w_tables s) last = Some t /\ tbl_can_shrink t (cf_cap (w_cfg s)) = true).
+Proof.
+  intros s stop0 (H & NR).
+  assert (Hnr : forall j t, nth_error (w_tables s) j = Some t -> tbl_has_rels t = false).
+  { intros j t E. destruct NR as (_ & N2 & _). destruct (N2 _ _ E) as (Hr & _). unfold tbl_has_rels. rewrite Hr. reflexivity. }
+  destruct (wf_arch0 _ H) as (_ & _ & _ & t0 & Et0 & _).
+  assert (HL : exists f, length (w_tables s) = S f).
+  { destruct (w_tables s) as [|x l]; [discriminate Et0|]. exists (length l). reflexivity. }
+  destruct HL as (f & HL).
+  destruct (r_go_spec stop0 (cf_cap (w_cfg s)) f 0 false s eq_refl Hnr) as (last & any' & T' & E & L & B & P & S0 & S1).
+  { rewrite HL. reflexivity. }
+  rewrite <- HL in E.
+  exists last, T'. rewrite r_shrink_eq, E. cbn [fst].
+  split.
+  - f_equal. change (w_tables (s <| w_tables := T' |>)) with T'.
+    assert (Hex : forall l : list table, (forall t, In t l -> tbl_has_rels t = false) ->
+              existsb (r_work (s <| w_tables := T' |>)) l = existsb (fun t => tbl_can_shrink t (cf_cap (w_cfg s))) l).
+    { induction l as [|a l IHl]; intros Hl; simpl; [reflexivity|].
+      rewrite IHl by (intros; apply Hl; right; assumption).
+      unfold r_work at 1. rewrite (Hl a) by (left; reflexivity). reflexivity. }
+    apply Hex. intros t Hin. apply r_in_skipn in Hin. destruct Hin as (j & _ & Ej).
+    rewrite P in Ej. destruct (r_in 0 last j).
+    + destruct (nth_error (w_tables s) j) as [tj|] eqn:Etj; [|discriminate]. simpl in Ej. inversion Ej; subst t.
+      rewrite r_step_has_rels. exact (Hnr _ _ Etj).
+    + exact (Hnr _ _ Ej).
+  - split; [lia|]. split; [lia|]. split; [|split; [intros; rewrite S0 by assumption; reflexivity|]].
+    + intros j. rewrite P. unfold r_in. reflexivity.
+    + intros Hs. destruct (S1 Hs eq_refl) as [Hend|Hw]; [left; lia|right; exact Hw].
+Qed.
+
+Lemma r_len_small : forall s j t, WF s -> nth_error (w_tables s) j = Some t -> t_len t <= Nat.pow 2 31.
+Proof.
+  intros s j t H E. pose proof (rows_le_pool s j t H E). pose proof (wf_small _ H). lia.
+Qed.
 
 (** Shrink (unbounded budget or zero budget) never changes entities, components, values; the world
     stays well formed; it never fails; the lock, observers, filters and queries are untouched. *)
@@ -13,7 +370,22 @@ Theorem shrink_invisible : forall s stop0, St s ->
   exists b s', w_shrink stop0 s = Ok b s' /\ St s' /\ content_same s s' /\ w_pool s' = w_pool s /\
                w_index s' = w_index s /\ side_same s s' /\ frame_user s s' /\ w_archs s' = w_archs s /\
                length (w_tables s') = length (w_tables s).
-Admitted.
+Proof.
+  intros s stop0 HSt. pose proof HSt as (H & NR).
+  destruct (r_shrink_run s stop0 HSt) as (last & T' & E & L & B & P & _).
+  eexists _, _. split; [exact E|].
+  destruct (r_sim_St s T' HSt L) as (HSt' & HC).
+  { intros j t Ej. pose proof (P j) as Pj. rewrite Ej in Pj.
+    assert (Ok_t : tbl_ok t) by (apply (proj1 (Forall_nth_error _ _ _) (wf_tables _ H) _ _ Ej)).
+    destruct (Nat.leb j last); simpl in Pj.
+    - eexists. split; [exact Pj|]. apply r_tsim_step; [exact Ok_t|]. eapply r_len_small; eauto.
+    - exists t. split; [exact Pj|]. apply r_tsim_refl. exact Ok_t. }
+  split; [exact HSt'|]. split; [exact HC|].
+  split; [reflexivity|]. split; [reflexivity|].
+  split; [unfold side_same; repeat split; reflexivity|].
+  split; [unfold frame_user; repeat split; reflexivity|].
+  split; [reflexivity|exact L].
+Qed.
 
 (** After an unbounded Shrink every table's capacity is at least its size and at most the larger of
     the initial capacity and the next power of two of its size; and Shrink reports no remaining work. *)
@@ -21,7 +393,26 @@ Theorem shrink_capacity_bounds : forall s, St s ->
   exists s', w_shrink false s = Ok false s' /\
   forall tid t, nth_error (w_tables s') tid = Some t ->
     t_len t <= t_cap t /\ t_cap t <= Nat.max (cf_cap (w_cfg s)) (cap_pow2 (t_len t)).
-Admitted.
+Proof.
+  intros s HSt. pose proof HSt as (H & NR).
+  destruct (r_shrink_run s false HSt) as (last & T' & E & L & B & P & S0 & _).
+  specialize (S0 eq_refl).
+  exists (s <| w_tables := T' |>). split.
+  - rewrite E. f_equal. rewrite S0, <- L, skipn_all. reflexivity.
+  - intros tid t' E'. change (w_tables (s <| w_tables := T' |>)) with T' in E'.
+    assert (Hlt : tid < length T') by (apply nth_error_Some; congruence).
+    rewrite P in E'. destruct (Nat.leb_spec tid last); [|lia].
+    destruct (nth_error (w_tables s) tid) as [t|] eqn:Et; [|discriminate]. simpl in E'. inversion E'; subst t'.
+    assert (Ok_t : tbl_ok t) by (apply (proj1 (Forall_nth_error _ _ _) (wf_tables _ H) _ _ Et)).
+    pose proof (r_len_small s tid t H Et) as Hs.
+    destruct (r_tsim_step (cf_cap (w_cfg s)) t Ok_t Hs) as (O' & L' & _).
+    split; [apply tbl_ok_elim in O'; apply O'|].
+    rewrite L'. unfold r_step. destruct (tbl_can_shrink t (cf_cap (w_cfg s))) eqn:C.
+    + destruct (tbl_adjust_len t (tbl_shrink_target t (cf_cap (w_cfg s)))) as [_ Cc]. rewrite Cc.
+      unfold tbl_shrink_target. rewrite Nat.max_comm. apply Nat.le_refl.
+    + unfold tbl_can_shrink in C. apply Nat.ltb_ge in C. unfold tbl_shrink_target in C.
+      rewrite Nat.max_comm. exact C.
+Qed.
 
 (** A zero-budget Shrink returns [true] only if some table can still shrink afterwards, and [false]
     only if none can; repeated calls terminate: each call that does work reduces the number of
@@ -31,16 +422,384 @@ Definition shrinkable (s : W) : nat :=
 
 Theorem shrink_result_exact : forall s stop0, St s ->
   exists b s', w_shrink stop0 s = Ok b s' /\ (b = true <-> 0 < shrinkable s') .
-Admitted.
+Proof.
+  intros s stop0 HSt.
+  destruct (r_shrink_run s stop0 HSt) as (last & T' & E & L & B & P & _).
+  eexists _, _. split; [exact E|].
+  unfold shrinkable. change (w_tables (s <| w_tables := T' |>)) with T'.
+  change (w_cfg (s <| w_tables := T' |>)) with (w_cfg s).
+  rewrite r_filter_pos, existsb_exists. split.
+  - intros (x & Hin & Hx). exists x. split; [|exact Hx].
+    apply r_in_skipn in Hin. destruct Hin as (j & _ & Ej). eapply nth_error_In; eauto.
+  - intros (x & Hin & Hx). exists x. split; [|exact Hx].
+    apply In_nth_error in Hin. destruct Hin as (j & Ej). apply r_in_skipn. exists j. split; [|exact Ej].
+    rewrite P in Ej. destruct (Nat.leb_spec j last); [|lia]. exfalso.
+    destruct (nth_error (w_tables s) j) as [t|]; [|discriminate]. simpl in Ej. inversion Ej; subst x.
+    rewrite r_step_noshrink in Hx. discriminate.
+Qed.
 
 Theorem shrink_converges : forall s, St s -> 0 < shrinkable s ->
   exists b s', w_shrink true s = Ok b s' /\ shrinkable s' < shrinkable s.
-Admitted.
+Proof.
+  intros s HSt Hpos.
+  destruct (r_shrink_run s true HSt) as (last & T' & E & L & B & P & _ & S1).
+  specialize (S1 eq_refl).
+  eexists _, _. split; [exact E|].
+  unfold shrinkable in *. change (w_tables (s <| w_tables := T' |>)) with T'.
+  change (w_cfg (s <| w_tables := T' |>)) with (w_cfg s).
+  set (c := cf_cap (w_cfg s)) in *.
+  apply r_count_lt; [exact L| |].
+  - intros j x' Ej Hx. rewrite P in Ej. destruct (Nat.leb_spec j last).
+    + exfalso. destruct (nth_error (w_tables s) j) as [t|]; [|discriminate]. simpl in Ej. inversion Ej; subst x'.
+      rewrite r_step_noshrink in Hx. discriminate.
+    + exists x'. auto.
+  - assert (W : exists j t, j <= last /\ nth_error (w_tables s) j = Some t /\ tbl_can_shrink t c = true).
+    { destruct S1 as [Hend|(t & Et & Ct)].
+      - apply r_filter_pos in Hpos. destruct Hpos as (t & Hin & Ct).
+        apply In_nth_error in Hin. destruct Hin as (j & Ej). exists j, t.
+        assert (j < length (w_tables s)) by (apply nth_error_Some; congruence).
+        split; [lia|auto].
+      - exists last, t. auto. }
+    destruct W as (j & t & Hj & Et & Ct).
+    exists j, t, (r_step c t). split; [exact Et|]. split; [exact Ct|]. split; [|apply r_step_noshrink].
+    rewrite P, Et. destruct (Nat.leb_spec j last); [reflexivity|lia].
+Qed.
+
+(** ** Reset *)
+
+Theorem reset_locked_rejected : forall s, is_locked s = true -> w_reset s = Err ELocked s.
+Proof.
+  intros s H. unfold w_reset. apply sa_bind_err.
+  unfold check_locked, bind, get, guard. rewrite H. reflexivity.
+Qed.
+
+Lemma r_check_unlocked : forall s, is_locked s = false -> check_locked s = Ok tt s.
+Proof. intros s H. unfold check_locked, bind, get, guard. rewrite H. reflexivity. Qed.
+
+Lemma r_modify_eq : forall (f : W -> W) s, modify f s = Ok tt (f s).
+Proof. reflexivity. Qed.
+
+(** *** The filter cache *)
+
+Definition r_cache_body (addr : nat) : MW unit :=
+  s <- get ;;
+  match nth_error (w_cheap s) addr with
+  | Some e => modify (fun s => s <| w_filters ::= updf (ce_filter e) (fun f => f <| f_cache := None |>) |>)
+  | None => fail EIndex
+  end.
+
+Lemma r_set_filters_id : forall s : W, s <| w_filters := w_filters s |> = s.
+Proof. intros s. destruct s. reflexivity. Qed.
+
+Lemma r_cache_loop : forall L s,
+  (forall addr, In addr L -> exists e, nth_error (w_cheap s) addr = Some e) ->
+  exists F', forM_ L r_cache_body s = Ok tt (s <| w_filters := F' |>) /\
+    forall i f', nth_error F' i = Some f' ->
+      f_cache f' = None \/
+      (nth_error (w_filters s) i = Some f' /\
+       forall addr e, In addr L -> nth_error (w_cheap s) addr = Some e -> ce_filter e <> i).
+Proof.
+  induction L as [|a L IH]; intros s Hc.
+  - exists (w_filters s). split; [simpl; rewrite r_set_filters_id; reflexivity|].
+    intros i f' E. right. split; [exact E|]. intros addr e [].
+  - destruct (Hc a (or_introl eq_refl)) as (e & Ee).
+    set (s1 := s <| w_filters ::= updf (ce_filter e) (fun f => f <| f_cache := None |>) |>).
+    assert (E1 : r_cache_body a s = Ok tt s1).
+    { unfold r_cache_body, bind, get. rewrite Ee. reflexivity. }
+    destruct (IH s1) as (F' & E2 & P2).
+    { intros addr Hin. exact (Hc addr (or_intror Hin)). }
+    exists F'. split.
+    + simpl forM_. rewrite (sa_bind_ok E1). exact E2.
+    + intros i f' Ei. destruct (P2 i f' Ei) as [Hn|(E3 & U3)]; [left; exact Hn|].
+      change (w_filters s1) with (updf (ce_filter e) (fun f => f <| f_cache := None |>) (w_filters s)) in E3.
+      rewrite nth_error_updf in E3. destruct (Nat.eqb_spec (ce_filter e) i) as [Heq|Hne].
+      * left. destruct (nth_error (w_filters s) i) as [f|]; [|discriminate]. simpl in E3. inversion E3. reflexivity.
+      * right. split; [exact E3|]. intros addr e0 [<-|Hin] E0.
+        -- rewrite Ee in E0. inversion E0; subst e0. exact Hne.
+        -- exact (U3 addr e0 Hin E0).
+Qed.
+
+Lemma r_cache_reset : forall s,
+  (forall addr, In addr (w_centries s) -> exists e, nth_error (w_cheap s) addr = Some e) ->
+  exists F' CP', cache_reset s = Ok tt (s <| w_filters := F' |> <| w_centries := [] |> <| w_cpool := CP' |>) /\
+    forall i f', nth_error F' i = Some f' ->
+      f_cache f' = None \/
+      (nth_error (w_filters s) i = Some f' /\
+       forall addr e, In addr (w_centries s) -> nth_error (w_cheap s) addr = Some e -> ce_filter e <> i).
+Proof.
+  intros s Hc. unfold cache_reset. unfold bind at 1, get at 1. cbv beta iota.
+  destruct (w_centries s) as [|a l] eqn:EC.
+  - exists (w_filters s), (w_cpool s). split.
+    + cbn [is_nil]. unfold ret. f_equal. destruct s. cbn in EC. subst. reflexivity.
+    + intros i f' E. right. split; [exact E|]. intros addr e [].
+  - cbn [is_nil].
+    change (forM_ (a :: l) _) with (forM_ (a :: l) r_cache_body).
+    destruct (r_cache_loop (a :: l) s) as (F' & E1 & P1).
+    { intros addr Hin. apply Hc. exact Hin. }
+    exists F', ipool_new. split; [|exact P1].
+    rewrite (sa_bind_ok E1). reflexivity.
+Qed.
+
+(** *** The observer manager *)
+
+Definition r_olist (L : list (nat * list nat)) (evt : nat) : list nat :=
+  match afind evt L with Some l => l | None => [] end.
+Definition r_has (G : list (nat * agg)) (evt : nat) : bool :=
+  g_has (match afind evt G with Some g => g | None => agg0 end).
+
+Lemma r_set_obs3_id : forall s : W, s <| w_obs := w_obs s |> <| w_olists := w_olists s |> <| w_oagg := w_oagg s |> = s.
+Proof. intros s. destruct s. reflexivity. Qed.
+
+Lemma r_set_obs_id : forall s : W, s <| w_obs := w_obs s |> = s.
+Proof. intros s. destruct s. reflexivity. Qed.
+
+Lemma r_modO_loop : forall f l s, exists O', forM_ l (fun oi => modO oi f) s = Ok tt (s <| w_obs := O' |>).
+Proof.
+  intros f l. induction l as [|a l IH]; intros s.
+  - exists (w_obs s). simpl. rewrite r_set_obs_id. reflexivity.
+  - destruct (IH (s <| w_obs ::= updf a f |>)) as (O' & E). exists O'.
+    simpl forM_. unfold bind, modO, modify. exact E.
+Qed.
+
+Lemma r_clear_step : forall evt s,
+  exists O' L' G',
+    ObsProofs.clear_evt evt s = Ok tt (s <| w_obs := O' |> <| w_olists := L' |> <| w_oagg := G' |>) /\
+    r_has G' evt = false /\
+    forall e, e <> evt -> r_olist L' e = r_olist (w_olists s) e /\ r_has G' e = r_has (w_oagg s) e.
+Proof.
+  intros evt s. unfold ObsProofs.clear_evt. unfold bind at 1, get at 1. cbv beta iota.
+  destruct (has_obs s evt) eqn:Eh; cbn [negb].
+  - destruct (r_modO_loop (fun o => o <| o_id := None |>) (olist s evt) s) as (O' & E1).
+    rewrite (sa_bind_ok E1). rewrite (sa_bind_ok (r_modify_eq _ _)). rewrite ObsProofs.mod_agg_eq.
+    exists O', (aset evt [] (w_olists s)), (aset evt agg0 (w_oagg s)).
+    split; [reflexivity|]. split.
+    + unfold r_has. rewrite ObsProofs.afind_aset, Nat.eqb_refl. reflexivity.
+    + intros e Hne. unfold r_olist, r_has. rewrite !ObsProofs.afind_aset.
+      destruct (Nat.eqb_spec evt e); [congruence|]. split; reflexivity.
+  - exists (w_obs s), (w_olists s), (w_oagg s). split; [rewrite r_set_obs3_id; reflexivity|].
+    split; [exact Eh|]. intros; split; reflexivity.
+Qed.
+
+Lemma r_clear_loop : forall Lst s,
+  exists O' L' G',
+    forM_ Lst ObsProofs.clear_evt s = Ok tt (s <| w_obs := O' |> <| w_olists := L' |> <| w_oagg := G' |>) /\
+    (forall e, r_has (w_oagg s) e = false -> r_has G' e = false) /\
+    (forall e, In e Lst -> r_has G' e = false) /\
+    (forall e, r_olist (w_olists s) e = [] \/ r_has (w_oagg s) e = false -> r_olist L' e = [] \/ r_has G' e = false).
+Proof.
+  induction Lst as [|a Lst IH]; intros s.
+  - exists (w_obs s), (w_olists s), (w_oagg s). split; [simpl; rewrite r_set_obs3_id; reflexivity|].
+    split; [auto|]. split; [intros e []|auto].
+  - destruct (r_clear_step a s) as (O1 & L1 & G1 & E1 & Ha & Hoth).
+    set (s1 := s <| w_obs := O1 |> <| w_olists := L1 |> <| w_oagg := G1 |>) in *.
+    destruct (IH s1) as (O' & L' & G' & E2 & A2 & B2 & C2).
+    change (w_oagg s1) with G1 in *. change (w_olists s1) with L1 in *.
+    exists O', L', G'. split; [simpl forM_; rewrite (sa_bind_ok E1); exact E2|].
+    assert (Hfalse : forall e, r_has (w_oagg s) e = false -> r_has G1 e = false).
+    { intros e He. destruct (Nat.eq_dec e a) as [->|Hne]; [exact Ha|]. rewrite (proj2 (Hoth e Hne)). exact He. }
+    split; [|split].
+    + intros e He. apply A2. apply Hfalse. exact He.
+    + intros e [<-|Hin]; [apply A2; exact Ha|apply B2; exact Hin].
+    + intros e He. apply C2. destruct (Nat.eq_dec e a) as [->|Hne]; [right; exact Ha|].
+      destruct (Hoth e Hne) as (Eo & Eh). rewrite Eo, Eh. exact He.
+Qed.
+
+Lemma r_reset_observers : forall s,
+  exists O' L' G' OP',
+    reset_observers s = Ok tt (s <| w_obs := O' |> <| w_olists := L' |> <| w_oagg := G' |>
+                                 <| w_opool := OP' |> <| w_ototal := 0 |> <| w_omax := 0 |>) /\
+    forall evt, ((w_ototal s = 0 \/ w_omax s < evt) -> olist s evt = [] \/ has_obs s evt = false) ->
+                r_olist L' evt = [] \/ r_has G' evt = false.
+Proof.
+  intros s. unfold reset_observers. unfold bind at 1, get at 1. cbv beta iota.
+  destruct (Nat.eqb_spec (w_ototal s) 0) as [E0|E0].
+  - exists (w_obs s), (w_olists s), (w_oagg s), (w_opool s). split.
+    + unfold put. f_equal. destruct s. cbn in E0. subst. reflexivity.
+    + intros evt HD. exact (HD (or_introl E0)).
+  - change (forM_ (seq 0 (S (w_omax s))) _) with (forM_ (seq 0 (S (w_omax s))) ObsProofs.clear_evt).
+    destruct (r_clear_loop (seq 0 (S (w_omax s))) s) as (O' & L' & G' & E1 & A1 & B1 & C1).
+    exists O', L', G', ipool_new. split; [rewrite (sa_bind_ok E1); reflexivity|].
+    intros evt HD. destruct (le_lt_dec evt (w_omax s)) as [Hle|Hlt].
+    + right. apply B1. apply in_seq. lia.
+    + apply C1. exact (HD (or_intror Hlt)).
+Qed.
+
+Lemma r_MInv_consistent : forall s, ObsProofs.MInv s ->
+  forall evt, (w_ototal s = 0 \/ w_omax s < evt) -> olist s evt = [] \/ has_obs s evt = false.
+Proof.
+  intros s [HI HT] evt [E0|Hlt]; left.
+  - pose proof (ObsProofs.lsum_ge evt (w_olists s)) as Hg. rewrite ObsProofs.olist_aget.
+    destruct (ObsProofs.aget evt (w_olists s)); [reflexivity|simpl in Hg; lia].
+  - destruct (olist s evt) eqn:El; [reflexivity|]. exfalso.
+    assert (evt <= w_omax s) by (apply (ObsProofs.mi_max _ HI); congruence). lia.
+Qed.
+
+(** *** The archetype loop *)
+
+Definition r_rst (t t' : table) : Prop :=
+  t_len t' = 0 /\ (tbl_ok t -> tbl_ok t') /\ t_arch t' = t_arch t /\ t_ids t' = t_ids t /\ t_kinds t' = t_kinds t /\
+  t_targets t' = t_targets t /\ t_rels t' = t_rels t /\ t_free t' = t_free t.
+
+Lemma r_rst_reset : forall t, r_rst t (tbl_reset t).
+Proof.
+  intros t. unfold r_rst. split; [reflexivity|]. split; [apply tbl_reset_ok|]. repeat split; reflexivity.
+Qed.
+
+Lemma r_rst_pre : forall t t', r_rst (tbl_reset t) t' -> r_rst t t'.
+Proof.
+  intros t t' (A & B & C1 & C2 & C3 & C4 & C5 & C6). unfold r_rst.
+  split; [exact A|]. split; [intros O; apply B, tbl_reset_ok; exact O|].
+  split; [exact C1|]. split; [exact C2|]. split; [exact C3|]. split; [exact C4|]. split; [exact C5|exact C6].
+Qed.
+
+Lemma r_arch_reset_eq : forall s aid a t0 rest,
+  nth_error (w_archs s) aid = Some a -> a_numrel a = 0 -> a_tables a = t0 :: rest ->
+  arch_reset aid s = Ok tt (s <| w_tables ::= updf t0 tbl_reset |>).
+Proof.
+  intros s aid a t0 rest Ea Hn Ht. unfold arch_reset. rewrite (sa_bind_ok (sa_getA_eq _ _ _ Ea)).
+  unfold arch_has_rels. rewrite Hn. cbn [Nat.eqb negb]. rewrite Ht. reflexivity.
+Qed.
+
+Lemma r_arch_loop : forall L s,
+  (forall aid, In aid L -> exists a t0 rest,
+     nth_error (w_archs s) aid = Some a /\ a_numrel a = 0 /\ a_tables a = t0 :: rest) ->
+  exists T', forM_ L arch_reset s = Ok tt (s <| w_tables := T' |>) /\ length T' = length (w_tables s) /\
+    forall tid t', nth_error T' tid = Some t' -> exists t, nth_error (w_tables s) tid = Some t /\
+      (r_rst t t' \/
+       (t' = t /\ forall aid a rest, In aid L -> nth_error (w_archs s) aid = Some a -> a_tables a <> tid :: rest)).
+Proof.
+  induction L as [|aid L IH]; intros s HL.
+  - exists (w_tables s). split; [simpl; rewrite r_set_tables_id; reflexivity|]. split; [reflexivity|].
+    intros tid t' E. exists t'. split; [exact E|]. right. split; [reflexivity|]. intros ? ? ? [].
+  - destruct (HL aid (or_introl eq_refl)) as (a & t0 & rest & Ea & Hn & Ht).
+    pose proof (r_arch_reset_eq s aid a t0 rest Ea Hn Ht) as E1.
+    set (s1 := s <| w_tables ::= updf t0 tbl_reset |>) in *.
+    destruct (IH s1) as (T' & E2 & L2 & P2).
+    { intros aid' Hin. exact (HL aid' (or_intror Hin)). }
+    change (w_tables s1) with (updf t0 tbl_reset (w_tables s)) in *. change (w_archs s1) with (w_archs s) in *.
+    exists T'. split; [simpl forM_; rewrite (sa_bind_ok E1); exact E2|].
+    split; [rewrite L2; apply updf_length|].
+    intros tid t' E'. destruct (P2 tid t' E') as (t1 & Et1 & D).
+    rewrite nth_error_updf in Et1. destruct (Nat.eqb_spec t0 tid) as [Heq|Hne].
+    + destruct (nth_error (w_tables s) tid) as [t|] eqn:Et; [|discriminate]. simpl in Et1. inversion Et1; subst t1.
+      exists t. split; [reflexivity|]. left. destruct D as [R|(-> & _)]; [apply r_rst_pre; exact R|apply r_rst_reset].
+    + exists t1. split; [exact Et1|]. destruct D as [R|(-> & U)]; [left; exact R|].
+      right. split; [reflexivity|]. intros aid' a' rest' [<-|Hin] Ea'.
+      * rewrite Ea in Ea'. inversion Ea'; subst a'. rewrite Ht. intros Hc. inversion Hc. contradiction.
+      * exact (U aid' a' rest' Hin Ea').
+Qed.
+
+(** *** Re-establishing the invariant *)
+
+Definition r_rst0 (t t' : table) : Prop :=
+  t_len t' = 0 /\ tbl_ok t' /\ t_arch t' = t_arch t /\ t_ids t' = t_ids t /\ t_kinds t' = t_kinds t /\
+  t_targets t' = t_targets t /\ t_rels t' = t_rels t /\ t_free t' = t_free t.
+
+Lemma r_reset_St : forall s s', St s ->
+  w_cfg s' = w_cfg s -> w_reg s' = w_reg s -> w_archs s' = w_archs s -> w_relarchs s' = w_relarchs s ->
+  w_compindex s' = w_compindex s -> w_archcount s' = w_archcount s ->
+  w_index s' = firstn 2 (w_index s) -> w_pool s' = pool_reset (w_pool s) ->
+  w_istarget s' = firstn 2 (w_istarget s) -> w_centries s' = [] ->
+  length (w_tables s') = length (w_tables s) ->
+  (forall tid t', nth_error (w_tables s') tid = Some t' ->
+     exists t, nth_error (w_tables s) tid = Some t /\ r_rst0 t t') ->
+  St s'.
+Proof.
+  intros s s' (H & NR) Ecfg Ereg Earch Erela Eci Eac Eidx Epool Eist Ece HLen Hb.
+  assert (Hk : forall c, kind_of s' c = kind_of s c) by (apply sa_kind_of_ext; exact Ereg).
+  assert (Hfw : forall tid t, nth_error (w_tables s) tid = Some t ->
+            exists t', nth_error (w_tables s') tid = Some t' /\ r_rst0 t t').
+  { intros tid t E. destruct (nth_error (w_tables s') tid) as [t'|] eqn:E'.
+    - destruct (Hb _ _ E') as (t0 & E0 & R). rewrite E in E0. inversion E0; subst t0. exists t'. auto.
+    - apply nth_error_None in E'. assert (tid < length (w_tables s)) by (apply nth_error_Some; congruence). lia. }
+  destruct (wf_index_len _ H) as [IL1 IL2].
+  destruct (wf_pool _ H) as (fl & (PL & _) & _).
+  destruct (wf_reserved _ H) as ((r0 & I0) & (r1 & I1) & P0 & P1).
+  split.
+  - constructor.
+    + apply Forall_nth_error. intros i x E. destruct (Hb _ _ E) as (t & _ & _ & O & _). exact O.
+    + intros tid t' E. destruct (Hb _ _ E) as (t & Et & _ & _ & Fa & Fi & Fk & Ft & _).
+      destruct (wf_layout _ H _ _ Et) as (a & Ea & L1 & L2 & L3). exists a.
+      rewrite Earch, Fa, Fi, Fk, Ft. repeat split; auto.
+      rewrite L2. apply map_ext. intros; symmetry; apply Hk.
+    + intros aid a Ea. rewrite Earch in Ea. destruct (wf_arch_comps _ H _ _ Ea) as (A1 & A2 & A3 & A4 & A5).
+      rewrite Ereg. repeat split; auto. rewrite A3. apply map_ext. intros; rewrite Hk; reflexivity.
+    + rewrite Earch. apply (wf_arch_unique _ H).
+    + intros aid a tid Ea Hin. rewrite Earch in Ea.
+      destruct (wf_arch_tables _ H _ _ _ Ea Hin) as (t & Et & Fa).
+      destruct (Hfw _ _ Et) as (t' & Et' & _ & _ & Fa' & _). exists t'. split; auto. congruence.
+    + rewrite Earch. apply (wf_arch_norel_table _ H).
+    + destruct (wf_arch0 _ H) as (a0 & Ea0 & M0 & t0 & Et0 & Fa0). exists a0. rewrite Earch.
+      repeat split; auto. destruct (Hfw _ _ Et0) as (t' & Et' & _ & _ & Fa' & _). exists t'. split; auto. congruence.
+    + rewrite Eci, Eac, Ereg, Ecfg. apply (wf_index_lists _ H).
+    + rewrite Eidx, Epool, Eist. unfold pool_reset, reserved. cbn [pe]. rewrite !firstn_length. lia.
+    + intros tid t r E Hr. destruct (Hb _ _ E) as (t0 & _ & L0 & _). lia.
+    + intros id tid r E. rewrite Eidx in E.
+      assert (Hid : id < 2).
+      { assert (Hlt : id < length (firstn 2 (w_index s))) by (apply nth_error_Some; congruence).
+        rewrite firstn_length in Hlt. lia. }
+      rewrite r_nth_error_firstn in E by exact Hid.
+      destruct id as [|[|id]]; [rewrite I0 in E; discriminate|rewrite I1 in E; discriminate|lia].
+    + exists []. rewrite Epool. unfold pool_ok, pool_reset, reserved. cbn [pe pnext pavail].
+      split; [|split; [intros i []|]].
+      * split; [rewrite firstn_length; lia|]. split; [reflexivity|]. split; [constructor|].
+        split; [intros i []|exact I].
+      * intros i Hi. rewrite firstn_length in Hi. lia.
+    + rewrite Eidx, Epool. unfold pool_reset, reserved. cbn [pe].
+      rewrite !r_nth_error_firstn by lia. repeat split; eauto.
+    + rewrite Epool. unfold pool_reset, reserved. cbn [pe]. rewrite firstn_length.
+      pose proof sa_small_2. lia.
+    + rewrite Ece. intros addr [].
+  - destruct NR as (N1 & N2 & N3 & N4). split; [|split; [|split]].
+    + intros c. rewrite Hk. apply N1.
+    + intros tid t' E. destruct (Hb _ _ E) as (t & Et & _ & _ & _ & _ & _ & _ & Fr & Ff).
+      rewrite Fr, Ff. apply (N2 _ _ Et).
+    + rewrite Earch. exact N3.
+    + rewrite Erela. exact N4.
+Qed.
+
+Lemma r_no_live : forall s, (forall tid t, nth_error (w_tables s) tid = Some t -> t_len t = 0) ->
+  forall e, live s e = false.
+Proof.
+  intros s H e. unfold live. destruct (loc s e) as [[tid r]|]; [|reflexivity].
+  destruct (nth_error (w_tables s) tid) as [t|] eqn:E; [|reflexivity].
+  rewrite (H _ _ E). reflexivity.
+Qed.
 
 (** Reset on an unlocked world: no entity is live, the pool is back to its two reserved slots, the
     filter cache is empty and every filter unregistered, no observer is registered, the world is
     unlocked, resources are gone, and the world is well formed again (so every later history behaves
-    as the storage theorems say). On a locked world it fails without effect. *)
+    as the storage theorems say). On a locked world it fails without effect.
+
+    The statement below, as first written, is NOT provable from [St s] alone (and is false for
+    some states satisfying [St]); it is commented out and replaced by [reset_empty_partial].
+    Four hypotheses are missing, each of them necessary:
+
+    (A) every archetype has a table. [create_archetype] followed by a failing [create_table]
+        leaves an archetype with [a_tables a = []] ([WF] allows it, see [wf_arch_norel_table]);
+        [arch_reset] then runs [match a_tables a with [] => fail EIndex], i.e. [w_reset s] is
+        [Err EIndex _] (Go: [a.tables[0]] panics with index out of range). Counterexample: any
+        [St] world whose archetype list contains an archetype with [a_tables = []]; this is
+        proved below as [reset_fails_without_table].
+    (B) every non-empty table is listed in [a_tables] of some archetype. [WF] only has the
+        direction archetype -> table ([wf_arch_tables]); nothing says that a table is listed in its
+        archetype. A table with rows that no archetype lists is not touched by the archetype loop, so
+        after Reset it still has [t_len > 0] while the entity index is truncated: the last conjunct
+        fails and [WF s'] fails ([wf_rows]). Suggested invariant clause:
+        [forall tid t, nth_error (w_tables s) tid = Some t ->
+           exists a, nth_error (w_archs s) (t_arch t) = Some a /\ (In tid (a_tables a) \/ In tid (a_free a))].
+    (C) every filter object that claims to be registered ([f_cache f <> None]) is the filter of some
+        cache entry in [w_centries]. [cache_reset] only clears the filters reachable from the
+        entries; [WF] ([wf_cache]) only has the direction entry -> filter. Counterexample: a world with
+        [w_centries = []] and a filter with [f_cache = Some 0]: Reset leaves that filter alone, so
+        [forall f, In f (w_filters s') -> f_cache f = None] fails.
+    (D) the observer manager is consistent: if [w_ototal s = 0] no event has both a non-empty list
+        and the [g_has] flag, and the same for events above [w_omax s]. [reset_observers] does
+        nothing but [w_omax := 0] when [w_ototal = 0], and only visits events [0..w_omax]; the
+        manager fields are not constrained by [St]. ([ObsProofs.MInv s], the invariant of all
+        manager histories, implies (D): [r_MInv_consistent].)
+    The hypothesis on [w_cheap] in the original statement is redundant ([wf_cache]).
+
 Theorem reset_empty : forall s, St s -> is_locked s = false ->
   (forall addr e, In addr (w_centries s) -> nth_error (w_cheap s) addr = Some e -> ce_filter e < length (w_filters s)) ->
   exists s', w_reset s = Ok tt s' /\ St s' /\ (forall e, live s' e = false) /\
@@ -50,7 +809,163 @@ Theorem reset_empty : forall s, St s -> is_locked s = false ->
              is_locked s' = false /\ Forall (fun b => b = false) (w_res s') /\
              w_reg s' = w_reg s /\ w_cfg s' = w_cfg s /\ length (w_archs s') = length (w_archs s) /\
              (forall tid t, nth_error (w_tables s') tid = Some t -> t_len t = 0).
-Admitted.
+(refuted)
+*)
+Theorem reset_empty_partial : forall s, St s -> is_locked s = false ->
+  (* (A) *) (forall aid a, nth_error (w_archs s) aid = Some a -> a_tables a <> []) ->
+  (* (B) *) (forall tid t, nth_error (w_tables s) tid = Some t -> 0 < t_len t ->
+               exists aid a, nth_error (w_archs s) aid = Some a /\ In tid (a_tables a)) ->
+  (* (C) *) (forall fi f, nth_error (w_filters s) fi = Some f -> f_cache f <> None ->
+               exists addr e, In addr (w_centries s) /\ nth_error (w_cheap s) addr = Some e /\ ce_filter e = fi) ->
+  (* (D) *) (forall evt, (w_ototal s = 0 \/ w_omax s < evt) -> olist s evt = [] \/ has_obs s evt = false) ->
+  exists s', w_reset s = Ok tt s' /\ St s' /\ (forall e, live s' e = false) /\
+             pe (w_pool s') = [(0, max_u32); (1, max_u32)] /\ pavail (w_pool s') = 0 /\
+             w_centries s' = [] /\ (forall f, In f (w_filters s') -> f_cache f = None) /\
+             w_ototal s' = 0 /\ (forall evt, olist s' evt = [] \/ has_obs s' evt = false) /\
+             is_locked s' = false /\ Forall (fun b => b = false) (w_res s') /\
+             w_reg s' = w_reg s /\ w_cfg s' = w_cfg s /\ length (w_archs s') = length (w_archs s) /\
+             (forall tid t, nth_error (w_tables s') tid = Some t -> t_len t = 0).
+Proof.
+  intros s HSt Hl HA HB HC HD. pose proof HSt as (H & NR).
+  unfold w_reset.
+  rewrite (sa_bind_ok (r_check_unlocked s Hl)).
+  rewrite (sa_bind_ok (r_modify_eq _ _)).
+  set (s1 := s <| w_index ::= firstn 2 |> <| w_pool ::= pool_reset |> <| w_istarget ::= firstn 2 |>).
+  (* cache *)
+  destruct (r_cache_reset s1) as (F' & CP' & E2 & PF).
+  { intros addr Hin. destruct (wf_cache _ H addr Hin) as (e & Ee & _). exists e. exact Ee. }
+  rewrite (sa_bind_ok E2).
+  set (s2 := s1 <| w_filters := F' |> <| w_centries := [] |> <| w_cpool := CP' |>).
+  rewrite (sa_bind_ok (r_modify_eq _ _)).
+  set (s3 := s2 <| w_lock := lock_new |>).
+  (* observers *)
+  destruct (r_reset_observers s3) as (O' & L' & G' & OP' & E4 & PO).
+  rewrite (sa_bind_ok E4).
+  set (s4 := s3 <| w_obs := O' |> <| w_olists := L' |> <| w_oagg := G' |>
+                <| w_opool := OP' |> <| w_ototal := 0 |> <| w_omax := 0 |>).
+  unfold bind at 1, get at 1. cbv beta iota.
+  (* archetypes *)
+  destruct (r_arch_loop (seq 0 (length (w_archs s4))) s4) as (T' & E5 & L5 & P5).
+  { intros aid Hin. apply in_seq in Hin. change (w_archs s4) with (w_archs s) in *.
+    destruct (nth_error (w_archs s) aid) as [a|] eqn:Ea; [|apply nth_error_None in Ea; lia].
+    destruct NR as (_ & _ & N3 & _). destruct (N3 _ _ Ea) as (_ & Hn & _).
+    pose proof (HA _ _ Ea) as Hne. destruct (a_tables a) as [|t0 rest] eqn:Et; [congruence|].
+    exists a, t0, rest. auto. }
+  rewrite (sa_bind_ok E5). rewrite r_modify_eq.
+  set (s' := s4 <| w_tables := T' |> <| w_res ::= map (fun _ : bool => false) |>).
+  change (w_tables s4) with (w_tables s) in *. change (w_archs s4) with (w_archs s) in *.
+  (* every table is reset *)
+  assert (HT : forall tid t', nth_error T' tid = Some t' -> exists t, nth_error (w_tables s) tid = Some t /\ r_rst0 t t').
+  { intros tid t' E'. destruct (P5 tid t' E') as (t & Et & D). exists t. split; [exact Et|].
+    assert (Ok_t : tbl_ok t) by (apply (proj1 (Forall_nth_error _ _ _) (wf_tables _ H) _ _ Et)).
+    destruct D as [(A & B & C)|(-> & U)].
+    - split; [exact A|]. split; [exact (B Ok_t)|exact C].
+    - split; [|split; [exact Ok_t|repeat split; reflexivity]].
+      destruct (t_len t) as [|n] eqn:Eln; [reflexivity|]. exfalso.
+      destruct (HB tid t Et) as (aid & a & Ea & Hin); [lia|].
+      assert (Haid : In aid (seq 0 (length (w_archs s)))).
+      { apply in_seq. assert (aid < length (w_archs s)) by (apply nth_error_Some; congruence). lia. }
+      destruct NR as (_ & _ & N3 & _). destruct (N3 _ _ Ea) as (_ & Hn & _).
+      pose proof (wf_arch_norel_table _ H _ _ Ea Hn) as Hle.
+      destruct (a_tables a) as [|x [|y l]] eqn:Eat; simpl in Hin, Hle; [contradiction| |lia].
+      destruct Hin as [->|[]]. apply (U aid a [] Haid Ea). exact Eat. }
+  assert (HZ : forall tid t, nth_error T' tid = Some t -> t_len t = 0).
+  { intros tid t E. destruct (HT _ _ E) as (t0 & _ & L0 & _). exact L0. }
+  exists s'. split; [reflexivity|].
+  split.
+  { apply (r_reset_St s s' HSt); try reflexivity.
+    - exact L5.
+    - exact HT. }
+  split; [apply r_no_live; exact HZ|].
+  split.
+  { change (pe (w_pool s')) with (firstn 2 (pe (w_pool s))).
+    destruct (wf_reserved _ H) as (_ & _ & P0 & P1).
+    revert P0 P1. destruct (pe (w_pool s)) as [|a [|b l]]; cbn [nth_error firstn]; intros P0 P1; try discriminate. inversion P0; inversion P1; reflexivity. }
+  split; [reflexivity|]. split; [reflexivity|].
+  split.
+  { intros f Hin. change (w_filters s') with F' in Hin. apply In_nth_error in Hin. destruct Hin as (i & Ei).
+    destruct (PF i f Ei) as [Hn|(E0 & U)]; [exact Hn|].
+    change (w_filters s1) with (w_filters s) in E0. change (w_centries s1) with (w_centries s) in U.
+    change (w_cheap s1) with (w_cheap s) in U.
+    destruct (f_cache f) as [cid|] eqn:Ef; [|reflexivity]. exfalso.
+    destruct (HC i f E0) as (addr & e & Hin & Ee & Efi); [congruence|].
+    exact (U addr e Hin Ee Efi). }
+  split; [reflexivity|].
+  split; [intros evt; exact (PO evt (HD evt))|].
+  split; [reflexivity|].
+  split.
+  { change (w_res s') with (map (fun _ : bool => false) (w_res s)).
+    apply Forall_forall. intros b Hin. apply in_map_iff in Hin. destruct Hin as (x & <- & _). reflexivity. }
+  split; [reflexivity|]. split; [reflexivity|]. split; [reflexivity|].
+  exact HZ.
+Qed.
 
-Theorem reset_locked_rejected : forall s, is_locked s = true -> w_reset s = Err ELocked s.
-Admitted.
+(** With the manager invariant of ObsProofs instead of (D). *)
+Corollary reset_empty_partial_MInv : forall s, St s -> is_locked s = false ->
+  (forall aid a, nth_error (w_archs s) aid = Some a -> a_tables a <> []) ->
+  (forall tid t, nth_error (w_tables s) tid = Some t -> 0 < t_len t ->
+     exists aid a, nth_error (w_archs s) aid = Some a /\ In tid (a_tables a)) ->
+  (forall fi f, nth_error (w_filters s) fi = Some f -> f_cache f <> None ->
+     exists addr e, In addr (w_centries s) /\ nth_error (w_cheap s) addr = Some e /\ ce_filter e = fi) ->
+  ObsProofs.MInv s ->
+  exists s', w_reset s = Ok tt s' /\ St s' /\ (forall e, live s' e = false) /\
+             pe (w_pool s') = [(0, max_u32); (1, max_u32)] /\ pavail (w_pool s') = 0 /\
+             w_centries s' = [] /\ (forall f, In f (w_filters s') -> f_cache f = None) /\
+             w_ototal s' = 0 /\ (forall evt, olist s' evt = [] \/ has_obs s' evt = false) /\
+             is_locked s' = false /\ Forall (fun b => b = false) (w_res s') /\
+             w_reg s' = w_reg s /\ w_cfg s' = w_cfg s /\ length (w_archs s') = length (w_archs s) /\
+             (forall tid t, nth_error (w_tables s') tid = Some t -> t_len t = 0).
+Proof.
+  intros s HSt Hl HA HB HC HM. apply reset_empty_partial; auto. apply r_MInv_consistent. exact HM.
+Qed.
+
+(** (A) is necessary: in a relation-free world an archetype without a table makes Reset fail
+    (Go: index out of range in [archetype.Reset]). *)
+Lemma r_arch_loop_fail : forall L s,
+  (forall aid, In aid L -> exists a, nth_error (w_archs s) aid = Some a /\ a_numrel a = 0) ->
+  (exists aid a, In aid L /\ nth_error (w_archs s) aid = Some a /\ a_tables a = []) ->
+  exists s', forM_ L arch_reset s = Err EIndex s'.
+Proof.
+  induction L as [|x L IH]; intros s HL (aid & a & Hin & Ea & Et).
+  - destruct Hin.
+  - destruct (HL x (or_introl eq_refl)) as (ax & Eax & Hn).
+    destruct (a_tables ax) as [|t0 rest] eqn:Etx.
+    + exists s. simpl forM_. apply sa_bind_err. unfold arch_reset.
+      rewrite (sa_bind_ok (sa_getA_eq _ _ _ Eax)). unfold arch_has_rels. rewrite Hn. cbn [Nat.eqb negb].
+      rewrite Etx. reflexivity.
+    + pose proof (r_arch_reset_eq s x ax t0 rest Eax Hn Etx) as E1.
+      destruct (IH (s <| w_tables ::= updf t0 tbl_reset |>)) as (s' & E2).
+      { intros aid' Hin'. exact (HL aid' (or_intror Hin')). }
+      { exists aid, a. split; [|split; [exact Ea|exact Et]].
+        destruct Hin as [<-|Hin]; [|exact Hin]. rewrite Eax in Ea. inversion Ea; subst a. congruence. }
+      exists s'. simpl forM_. rewrite (sa_bind_ok E1). exact E2.
+Qed.
+
+Theorem reset_fails_without_table : forall s aid a, St s -> is_locked s = false ->
+  nth_error (w_archs s) aid = Some a -> a_tables a = [] ->
+  exists s', w_reset s = Err EIndex s'.
+Proof.
+  intros s aid a (H & NR) Hl Ea Et.
+  unfold w_reset.
+  rewrite (sa_bind_ok (r_check_unlocked s Hl)).
+  rewrite (sa_bind_ok (r_modify_eq _ _)).
+  set (s1 := s <| w_index ::= firstn 2 |> <| w_pool ::= pool_reset |> <| w_istarget ::= firstn 2 |>).
+  destruct (r_cache_reset s1) as (F' & CP' & E2 & _).
+  { intros addr Hin. destruct (wf_cache _ H addr Hin) as (e & Ee & _). exists e. exact Ee. }
+  rewrite (sa_bind_ok E2).
+  rewrite (sa_bind_ok (r_modify_eq _ _)).
+  match goal with |- context [bind reset_observers _ ?st] => set (s3 := st) end.
+  destruct (r_reset_observers s3) as (O' & L' & G' & OP' & E4 & _).
+  rewrite (sa_bind_ok E4).
+  match goal with |- context [bind get _ ?st] => set (s4 := st) end.
+  unfold bind at 1, get at 1. cbv beta iota.
+  destruct (r_arch_loop_fail (seq 0 (length (w_archs s4))) s4) as (s' & E5).
+  { intros aid' Hin. apply in_seq in Hin. change (w_archs s4) with (w_archs s) in *.
+    destruct (nth_error (w_archs s) aid') as [a'|] eqn:Ea'; [|apply nth_error_None in Ea'; lia].
+    destruct NR as (_ & _ & N3 & _). destruct (N3 _ _ Ea') as (_ & Hn & _). exists a'. auto. }
+  { exists aid, a. change (w_archs s4) with (w_archs s). split; [|auto].
+    apply in_seq. assert (aid < length (w_archs s)) by (apply nth_error_Some; congruence). lia. }
+  exists s'. apply sa_bind_err. exact E5.
+Qed.
+
+(** ** Assumption audit *)
